@@ -489,7 +489,7 @@ MUTANTS = [
             if self.state.SHUTDOWN:
                 return
             self.send_queue.clear()""", 'C09-R3'),
-    ('target-deactivate-deadline-per-request', 'nfc.dep', "                if req.pfb.fmt == DEP_REQ.Attention:", "                deadline = time.time() + 1.0\n                if req.pfb.fmt == DEP_REQ.Attention:", 'C09-R8'),
+    ('target-deactivate-deadline-per-request', 'nfc.dep', "                        res = ATN(self.did, self.nad)\n                    else:\n                        res = INF(req.pfb.pni, data, self.did, self.nad)", "                        res = ATN(self.did, self.nad)\n                        deadline = time.time() + 1.0\n                    else:\n                        res = INF(req.pfb.pni, data, self.did, self.nad)", 'C09-R8'),
     ('terminate-reads-table-entry-twice', 'nfc.llcp.llc', """                sap = self.sap[i]  # may be removed by a closing socket
                 if sap is not None:
                     log.debug("closing service access point %d" % i)
